@@ -70,7 +70,9 @@ def api_stage(prop, family, tier, seed, groups=("fm", "rist"), scale=None, scale
     """TLC model-checks BPPApi over `family`, prints every behaviour; the harness replays all of them on the library."""
     st = StageResult("api:" + family)
     t0 = time.time()
-    wd = vlib.workdir(f"{prop}_api_{family}")
+    # (one work directory per distinct stage: stages of one check may run side by side)
+    wd = vlib.workdir(f"{prop}_api_{family}" + (f"_x{scale.replace(':', '_')}" if scale else "") + ("" if profile == "release" else "_" + profile)
+                      + ("" if tuple(groups) == ("fm", "rist") else "_" + "_".join(groups)))
     r = family_behaviours(family, tier, wd, workers)
     if not r["ok"]:
         if r["violated"]:
@@ -607,7 +609,7 @@ def threads_stage(prop, tier, seed, races=6, race_threads=8):
     t0 = time.time()
     wd = vlib.workdir(f"{prop}_threads")
     q = tier == "quick"
-    # (thorough: 3 threads x 3 steps over the 18-call menu = 157 464 histories, of which 6 000 are executed; a fourth step would be 5.3 million)
+    # (thorough: 3 threads x 3 steps over the 20-call menu = 216 000 histories, of which 6 000 are executed; a fourth step would be 5.3 million)
     cfg = lambda sticky: (f'CONSTANTS NThreads = {2 if q else 3} MaxLen = 3 Sticky = {"TRUE" if sticky else "FALSE"} Tier = "{tier}"\n'
                           f"SPECIFICATION Spec\nINVARIANTS Pure{'' if sticky else ' Emit'}\nCHECK_DEADLOCK FALSE\n")
     r = vlib.run_tlc("MC_Histories", cfg(False), wd, workers=8, timeout=3000)
@@ -626,7 +628,7 @@ def threads_stage(prop, tier, seed, races=6, race_threads=8):
     if len(hist) > limit:
         # always keep histories in which one thread runs a call and later a related one (smaller before larger parameter
         # set, a recovery before a recovery with more rounds, a refused batch before a valid one, the same call twice)
-        pairs = {(0, 3), (1, 3), (2, 3), (0, 1), (0, 2), (5, 11), (6, 11), (10, 6), (10, 9), (8, 6), (4, 4), (9, 9), (4, 5), (12, 13), (13, 12), (14, 6), (14, 14), (15, 15), (15, 6), (15, 14), (15, 11), (15, 8), (16, 16), (17, 17), (10, 17), (3, 16)}
+        pairs = {(0, 3), (1, 3), (2, 3), (0, 1), (0, 2), (5, 11), (6, 11), (10, 6), (10, 9), (8, 6), (4, 4), (9, 9), (4, 5), (12, 13), (13, 12), (14, 6), (14, 14), (15, 15), (15, 6), (15, 14), (15, 11), (15, 8), (16, 16), (17, 17), (10, 17), (3, 16), (18, 18), (19, 19), (19, 4), (18, 6)}
 
         def related(h):
             st_ = h["steps"]
@@ -650,7 +652,7 @@ def threads_stage(prop, tier, seed, races=6, race_threads=8):
         vlib.run_harness(["threads", "--reference", str(c), "--out", refp] + flood)
         return open(refp).read()
     with ThreadPoolExecutor(max_workers=8) as ex:
-        ref_lines = "".join(ex.map(ref, range(18)))
+        ref_lines = "".join(ex.map(ref, range(20)))
     files = []
     hp_out = os.path.join(wd, "hist_trace.ndjson")
     lp = os.path.join(wd, "long.ndjson")
